@@ -438,14 +438,18 @@ def semistrat(data: ttb.sptensor, num_nonzeros: int, num_zeros: int) -> sample_t
     Subscripts, values, and weights of samples (Nonzeros then zeros).
     """
     [nonzero_subs, nonzero_vals] = nonzeros(data, num_nonzeros, with_replacement=True)
-    nonzero_weights = (data.nnz / num_nonzeros) * np.ones((num_nonzeros,))
+    nonzero_weights = np.ones((num_nonzeros,))
+    if num_nonzeros > 0:
+        nonzero_weights *= data.nnz / num_nonzeros
 
     # Uniformly sample unconfirmed zeros
     zero_subs = np.ceil(
         np.random.uniform(0, 1, (num_zeros, data.ndims)) * (np.array(data.shape) - 1),
     ).astype(int)
     zero_vals = np.zeros((num_zeros,))
-    zero_weights = (np.prod(data.shape) / num_zeros) * np.ones((num_zeros,))
+    zero_weights = np.ones((num_zeros,))
+    if num_zeros > 0:
+        zero_weights *= np.prod(data.shape) / num_zeros
 
     all_subs = np.vstack((nonzero_subs, zero_subs))
     all_vals = np.concatenate((nonzero_vals, zero_vals))
@@ -499,4 +503,5 @@ def stratified(
     all_subs = np.vstack((nonzero_subs, zero_subs))
     all_vals = np.concatenate((nonzero_vals, zero_vals))
     all_weights = np.concatenate((nonzero_weights, zero_weights))
-    return all_subs, all_vals.squeeze(), all_weights
+    # One value per sample, also for a single sample
+    return all_subs, all_vals.reshape(-1), all_weights
